@@ -18,9 +18,7 @@ def bail(node, why):
     raise Untranslatable("threshold.py line %s: %s" % (getattr(node, "lineno", "?"), why))
 
 
-REGS = {"global_threshold": "RG", "threshold_range_min": "RLo", "threshold_range_max": "RHi",
-        "local_threshold": "RL"}
-MODS = {"TM_GLOBAL": 0, "TM_ADAPTIVE": 1, "TM_PER_OBJECT": 2}
+MODS = {"TM_GLOBAL": "MGlobal", "TM_ADAPTIVE": "MAdaptive", "TM_PER_OBJECT": "MPerObject"}
 
 
 def qlit(fr):
@@ -32,183 +30,291 @@ def coq_string(s):
     return '"' + s.replace('"', '""') + '"'
 
 
+# terms are nested tuples: ("TRawG",) ("TConst", text, Fraction) ("TMul", a, b) ("TIf", cond, a, b) …;
+# conditions ("CNotNone", t) ("CIsArray", t) ("CMod", k) ("CLabels",); opaque parameters ("P", name)
+def t_if(c, a, b):
+    return a if a == b else ("TIf", c, a, b)
+
+
+def r_if(c, a, b):
+    return a if a == b else ("RIf", c, a, b)
+
+
 class GT:
-    """get_threshold body -> stmt"""
+    """get_threshold body -> terms of the two returned values, by symbolic evaluation.
+    Environment: local name -> term.  Assignments (plain, tuple, augmented) to parameters or to fresh locals
+    update it; `if` merges the environments of its branches name by name; `if c: return X` followed by code is
+    if/else; `not a is b` is `a is not b`; docstrings and comments do not exist in the ast."""
+
+    PARAMS = {"threshold_range_min": ("TLo",), "threshold_range_max": ("THi",),
+              "threshold_correction_factor": ("TCf",)}
+    OPAQUE = ["threshold_method", "threshold_modifier", "image", "mask", "labels", "adaptive_window_size", "kwargs"]
 
     def __init__(self, src):
         self.src = src
-        self.consts = []
 
     def seg(self, node):
         return ast.get_source_segment(self.src, node)
 
-    def expr(self, e):
+    # ---- expressions
+    def expr(self, e, env):
         if isinstance(e, ast.Name) and isinstance(e.ctx, ast.Load):
-            if e.id in REGS:
-                return "EReg %s" % REGS[e.id]
-            if e.id == "threshold_correction_factor":
-                return "ECf"
-            bail(e, "unexpected name %s in clamp expression" % e.id)
+            if e.id in env:
+                return env[e.id]
+            bail(e, "name %s is not bound to a term" % e.id)
         if isinstance(e, ast.Constant) and type(e.value) is float:
-            text = self.seg(e)
-            fr = Fraction(e.value)        # exact value of the double the literal denotes
-            self.consts.append((text, fr))
-            return "EConst %s" % qlit(fr)
+            return ("TConst", self.seg(e), Fraction(e.value))      # exact value of the double the literal denotes
+        if isinstance(e, ast.Constant) and e.value is None:
+            return ("NoneLit",)
         if isinstance(e, ast.BinOp) and isinstance(e.op, ast.Mult):
-            return "EMul (%s) (%s)" % (self.expr(e.left), self.expr(e.right))
-        if (isinstance(e, ast.Call) and isinstance(e.func, ast.Name) and e.func.id in ("max", "min")
-                and len(e.args) == 2 and not e.keywords
-                and not any(isinstance(a, ast.Starred) for a in e.args)):
-            return "%s (%s) (%s)" % ("EMax" if e.func.id == "max" else "EMin",
-                                     self.expr(e.args[0]), self.expr(e.args[1]))
+            return ("TMul", self.num(e.left, env), self.num(e.right, env))
+        if isinstance(e, ast.Call) and isinstance(e.func, ast.Name):
+            f = e.func.id
+            if f in ("max", "min") and len(e.args) == 2 and not e.keywords and not any(
+                    isinstance(a, ast.Starred) for a in e.args):
+                return ("TMax" if f == "max" else "TMin", self.num(e.args[0], env), self.num(e.args[1], env))
+            if f.startswith("get_"):
+                return self.call(e, env)
+        if isinstance(e, ast.Tuple):
+            return ("Tuple",) + tuple(self.expr(x, env) for x in e.elts)
         bail(e, "unrecognised expression %r" % self.seg(e))
 
-    @staticmethod
-    def not_none(test):
-        """`not X is None` / `X is not None` -> X's name"""
-        if (isinstance(test, ast.UnaryOp) and isinstance(test.op, ast.Not)
-                and isinstance(test.operand, ast.Compare) and len(test.operand.ops) == 1
-                and isinstance(test.operand.ops[0], ast.Is)
-                and isinstance(test.operand.comparators[0], ast.Constant)
-                and test.operand.comparators[0].value is None
-                and isinstance(test.operand.left, ast.Name)):
-            return test.operand.left.id
-        if (isinstance(test, ast.Compare) and len(test.ops) == 1 and isinstance(test.ops[0], ast.IsNot)
-                and isinstance(test.comparators[0], ast.Constant) and test.comparators[0].value is None
-                and isinstance(test.left, ast.Name)):
-            return test.left.id
-        return None
+    def num(self, e, env):
+        t = self.expr(e, env)
+        if t[0] in ("P", "NoneLit", "Tuple"):
+            bail(e, "%r is not a threshold-valued expression" % self.seg(e))
+        return t
 
-    @staticmethod
-    def mod_eq(test):
-        if (isinstance(test, ast.Compare) and len(test.ops) == 1 and isinstance(test.ops[0], ast.Eq)
-                and isinstance(test.left, ast.Name) and test.left.id == "threshold_modifier"
-                and isinstance(test.comparators[0], ast.Name) and test.comparators[0].id in MODS):
-            return MODS[test.comparators[0].id]
-        return None
+    def call(self, call, env):
+        fname = call.func.id
+        args = [self.expr(a, env) for a in call.args]
+        kws = [(k.arg, self.expr(k.value, env)) for k in call.keywords]
+        P = lambda n: ("P", n)
+        if fname == "get_global_threshold":
+            if args == [P("threshold_method"), P("image"), P("mask")] and kws == [(None, P("kwargs"))]:
+                return ("TRawG",)
+        elif fname == "get_adaptive_threshold":
+            # the third argument (the global threshold) is not used by the callee: any threshold term
+            if (len(args) == 4 and args[:2] == [P("threshold_method"), P("image")] and args[3] == P("mask")
+                    and args[2][0] not in ("P", "NoneLit", "Tuple")
+                    and kws == [("adaptive_window_size", P("adaptive_window_size")), (None, P("kwargs"))]):
+                return ("TRawAd",)
+        elif fname == "get_per_object_threshold":
+            # arguments 3, 6, 7 (global threshold, range limits) are not used by the callee
+            if (len(args) == 7 and args[:2] == [P("threshold_method"), P("image")] and args[3] == P("mask")
+                    and args[4] == P("labels") and all(a[0] not in ("P", "NoneLit", "Tuple") for a in (args[2], args[5], args[6]))
+                    and kws == [(None, P("kwargs"))]):
+                return ("TRawPo",)
+        bail(call, "%s is not called with the expected arguments: %r" % (fname, self.seg(call)))
 
-    def call_shape(self, call, fname, pos, kws):
-        if not (isinstance(call, ast.Call) and isinstance(call.func, ast.Name) and call.func.id == fname):
-            return False
-        args = [a.id if isinstance(a, ast.Name) else None for a in call.args]
-        if args != pos:
-            bail(call, "%s called with positional arguments %s, expected %s" % (fname, args, pos))
-        got = []
-        for k in call.keywords:
-            if not isinstance(k.value, ast.Name):
-                bail(call, "%s keyword %s is not a plain name" % (fname, k.arg))
-            got.append((k.arg, k.value.id))
-        if got != kws:
-            bail(call, "%s called with keywords %s, expected %s" % (fname, got, kws))
-        return True
+    # ---- conditions: (cond, positive?) pairs; `not` flips, `and` nests
+    def cond(self, t, env):
+        """-> function k(then, else) building the merged value for this test"""
+        if isinstance(t, ast.UnaryOp) and isinstance(t.op, ast.Not):
+            inner = self.cond(t.operand, env)
+            return lambda a, b, mk: inner(b, a, mk)
+        if isinstance(t, ast.BoolOp) and isinstance(t.op, ast.And):
+            parts = [self.cond(v, env) for v in t.values]
 
-    def seq(self, stmts):
-        out = [self.stmt(s) for s in stmts]
-        out = [o for o in out if o is not None]
-        if not out:
-            return "SSkip"
-        r = out[-1]
-        for o in reversed(out[:-1]):
-            r = "SSeq (%s) (%s)" % (o, r)
-        return r
+            def k(a, b, mk, parts=parts):
+                r = a
+                for p in reversed(parts):
+                    r = p(r, b, mk)
+                return r
+            return k
+        if isinstance(t, ast.Compare) and len(t.ops) == 1:
+            op, left, right = t.ops[0], t.left, t.comparators[0]
+            if isinstance(op, (ast.Is, ast.IsNot)) and isinstance(right, ast.Constant) and right.value is None:
+                v = self.expr(left, env)
+                if v == ("P", "labels"):
+                    c = ("CLabels",)
+                elif v[0] in ("P", "NoneLit", "Tuple"):
+                    bail(t, "None-test of %r" % self.seg(left))
+                else:
+                    c = ("CNotNone", v)
+                if isinstance(op, ast.IsNot):
+                    return lambda a, b, mk, c=c: mk(c, a, b)
+                return lambda a, b, mk, c=c: mk(c, b, a)
+            if (isinstance(op, (ast.Eq, ast.NotEq)) and isinstance(left, ast.Name) and env.get(left.id) == ("P", "threshold_modifier")
+                    and isinstance(right, ast.Name) and right.id in MODS):
+                c = ("CMod", MODS[right.id])
+                if isinstance(op, ast.Eq):
+                    return lambda a, b, mk, c=c: mk(c, a, b)
+                return lambda a, b, mk, c=c: mk(c, b, a)
+        if (isinstance(t, ast.Call) and isinstance(t.func, ast.Name) and t.func.id == "isinstance" and len(t.args) == 2
+                and self.seg(t.args[1]) == "np.ndarray"):
+            c = ("CIsArray", self.num(t.args[0], env))
+            return lambda a, b, mk, c=c: mk(c, a, b)
+        bail(t, "unrecognised test %r" % self.seg(t))
 
-    def stmt(self, s):
+    # ---- statements; an environment also carries "#ret" (returned tuple or None) and "#raise" (rterm)
+    def block(self, stmts, env):
+        for i, s in enumerate(stmts):
+            if env["#ret"] is not None or env["#raise"] == ("RAlways",):
+                bail(s, "code after return / raise")
+            if isinstance(s, ast.If):
+                k = self.cond(s.test, env)
+                rest = stmts[i + 1:]
+                e1 = self.block(s.body, dict(env))
+                e2 = self.block(s.orelse, dict(env))
+                d1 = e1["#ret"] is not None or e1["#raise"] == ("RAlways",)
+                d2 = e2["#ret"] is not None or e2["#raise"] == ("RAlways",)
+                # `if c: return X` + rest  ==  if c: return X else: rest
+                if rest and d1 != d2:
+                    if d1:
+                        e2 = self.block(rest, e2)
+                    else:
+                        e1 = self.block(rest, e1)
+                    return self.merge(k, e1, e2, s)
+                env = self.merge(k, e1, e2, s)
+                continue
+            env = self.stmt(s, env)
+        return env
+
+    def merge(self, k, e1, e2, node):
+        dead1, dead2 = e1["#raise"] == ("RAlways",), e2["#raise"] == ("RAlways",)
+        out = {}
+        for name in set(e1) | set(e2):
+            if name == "#raise":
+                out[name] = k(e1[name], e2[name], r_if)
+            elif dead1:                       # nothing is observed on a path that raises
+                if name in e2:
+                    out[name] = e2[name]
+            elif dead2:
+                if name in e1:
+                    out[name] = e1[name]
+            elif name in e1 and name in e2:
+                a, b = e1[name], e2[name]
+                if a == b:
+                    out[name] = a
+                elif name == "#ret":
+                    if a is None or b is None or len(a) != len(b):
+                        bail(node, "a branch returns and the other falls through to different code")
+                    out[name] = tuple(k(x, y, t_if) for x, y in zip(a, b))
+                elif a[0] in ("P", "NoneLit", "Tuple") or b[0] in ("P", "NoneLit", "Tuple"):
+                    bail(node, "%s is bound to different non-threshold values in the two branches" % name)
+                else:
+                    out[name] = k(a, b, t_if)
+            # a name bound on one side only is unusable afterwards (reading it bails)
+        return out
+
+    def assign(self, target, value, env, node):
+        if isinstance(target, ast.Name):
+            env[target.id] = value
+            return env
+        if isinstance(target, ast.Tuple) and value[0] == "Tuple" and len(target.elts) == len(value) - 1:
+            for t, v in zip(target.elts, value[1:]):
+                env = self.assign(t, v, env, node)
+            return env
+        if isinstance(target, ast.Subscript) and isinstance(target.value, ast.Name):
+            name = target.value.id
+            arr = env.get(name)
+            if arr is None or arr[0] in ("P", "NoneLit", "Tuple"):
+                bail(node, "masked store into %s" % name)
+            sl = target.slice
+            if isinstance(sl, ast.Compare) and len(sl.ops) == 1:
+                left = self.expr(sl.left, env)
+                c0 = sl.comparators[0]
+                if (left == ("P", "labels") and isinstance(sl.ops[0], ast.Eq) and isinstance(c0, ast.Constant)
+                        and type(c0.value) is int and c0.value == 0):
+                    env[name] = ("TSentinel", arr, value)
+                    return env
+                if left == arr and isinstance(sl.ops[0], (ast.Lt, ast.Gt)) and self.expr(c0, env) == value:
+                    env[name] = ("TClampLow" if isinstance(sl.ops[0], ast.Lt) else "TClampHigh", arr, value)
+                    return env
+        bail(node, "unrecognised assignment %r" % self.seg(node))
+
+    def stmt(self, s, env):
+        env = dict(env)
         if isinstance(s, ast.Expr) and isinstance(s.value, ast.Constant) and isinstance(s.value.value, str):
-            return None                                             # docstring
+            return env                                              # docstring
+        if isinstance(s, ast.Pass):
+            return env
         if isinstance(s, ast.AugAssign):
-            if isinstance(s.op, ast.Mult) and isinstance(s.target, ast.Name) and s.target.id in REGS:
-                r = REGS[s.target.id]
-                return "SSet %s (EMul (EReg %s) (%s))" % (r, r, self.expr(s.value))
+            if isinstance(s.op, ast.Mult) and isinstance(s.target, ast.Name):
+                env[s.target.id] = ("TMul", self.num(s.target, env) if False else self.num(
+                    ast.copy_location(ast.Name(id=s.target.id, ctx=ast.Load()), s.target), env), self.num(s.value, env))
+                return env
             bail(s, "unrecognised augmented assignment")
         if isinstance(s, ast.Assign):
-            if len(s.targets) != 1:
-                bail(s, "multiple assignment targets")
-            t = s.targets[0]
-            if isinstance(t, ast.Name):
-                if t.id not in REGS:
-                    bail(s, "assignment to %s" % t.id)
-                r = REGS[t.id]
-                v = s.value
-                if isinstance(v, ast.Call) and isinstance(v.func, ast.Name) and v.func.id.startswith("get_"):
-                    if self.call_shape(v, "get_global_threshold", ["threshold_method", "image", "mask"],
-                                       [(None, "kwargs")]):
-                        return "SCallGlobal %s" % r
-                    if self.call_shape(v, "get_adaptive_threshold",
-                                       ["threshold_method", "image", "global_threshold", "mask"],
-                                       [("adaptive_window_size", "adaptive_window_size"), (None, "kwargs")]):
-                        return "SCallAdaptive %s" % r
-                    if self.call_shape(v, "get_per_object_threshold",
-                                       ["threshold_method", "image", "global_threshold", "mask", "labels",
-                                        "threshold_range_min", "threshold_range_max"], [(None, "kwargs")]):
-                        return "SCallPerObject %s" % r
-                    bail(s, "unrecognised callee %s" % v.func.id)
-                return "SSet %s (%s)" % (r, self.expr(v))
-            if isinstance(t, ast.Subscript) and isinstance(t.value, ast.Name) and t.value.id in REGS:
-                r = REGS[t.value.id]
-                sl = t.slice
-                if (isinstance(sl, ast.Compare) and len(sl.ops) == 1 and isinstance(sl.left, ast.Name)
-                        and sl.left.id == t.value.id and isinstance(sl.comparators[0], ast.Name)
-                        and isinstance(s.value, ast.Name) and s.value.id == sl.comparators[0].id
-                        and s.value.id in REGS):
-                    b = REGS[s.value.id]
-                    if isinstance(sl.ops[0], ast.Lt):
-                        return "SClampLow %s %s" % (r, b)
-                    if isinstance(sl.ops[0], ast.Gt):
-                        return "SClampHigh %s %s" % (r, b)
-                bail(s, "unrecognised masked store %r" % self.seg(s))
-            bail(s, "unrecognised assignment %r" % self.seg(s))
-        if isinstance(s, ast.If):
-            nn = self.not_none(s.test)
-            if nn is not None:
-                if s.orelse or nn not in REGS:
-                    bail(s, "unrecognised None-guard")
-                return "SIfNotNone %s (%s)" % (REGS[nn], self.seq(s.body))
-            # isinstance(local_threshold, np.ndarray)
-            t = s.test
-            if (isinstance(t, ast.Call) and isinstance(t.func, ast.Name) and t.func.id == "isinstance"
-                    and len(t.args) == 2 and isinstance(t.args[0], ast.Name) and t.args[0].id in REGS
-                    and self.seg(t.args[1]) == "np.ndarray"):
-                return "SIfArray %s (%s) (%s)" % (REGS[t.args[0].id], self.seq(s.body), self.seq(s.orelse))
-            # modifier dispatch
-            if self.mod_eq(t) == 0:
-                branches = {0: s.body}
-                cur = s
-                for want in (1, 2):
-                    if not (len(cur.orelse) == 1 and isinstance(cur.orelse[0], ast.If)
-                            and self.mod_eq(cur.orelse[0].test) == want):
-                        bail(cur, "modifier dispatch is not GLOBAL / ADAPTIVE / PER_OBJECT / else raise")
-                    cur = cur.orelse[0]
-                    branches[want] = cur.body
-                if not (len(cur.orelse) == 1 and isinstance(cur.orelse[0], ast.Raise)):
-                    bail(cur, "modifier dispatch does not end in raise")
-                return "SDispatch (%s) (%s) (%s)" % tuple(self.seq(branches[k]) for k in (0, 1, 2))
-            # sentinel: (threshold_modifier == TM_PER_OBJECT) and (labels is not None)
-            if (isinstance(t, ast.BoolOp) and isinstance(t.op, ast.And) and len(t.values) == 2
-                    and self.mod_eq(t.values[0]) == 2 and self.not_none(t.values[1]) == "labels"
-                    and not s.orelse and len(s.body) == 1 and isinstance(s.body[0], ast.Assign)):
-                a = s.body[0]
-                tg = a.targets[0]
-                if (len(a.targets) == 1 and isinstance(tg, ast.Subscript) and isinstance(tg.value, ast.Name)
-                        and tg.value.id in REGS and self.seg(tg.slice) == "labels == 0"):
-                    return "SSentinel %s (%s)" % (REGS[tg.value.id], self.expr(a.value))
-            bail(s, "unrecognised if-statement %r" % self.seg(s.test))
+            v = self.expr(s.value, env)
+            for t in s.targets:
+                env = self.assign(t, v, env, s)
+            return env
         if isinstance(s, ast.Return):
-            v = s.value
-            if (isinstance(v, ast.Tuple) and [getattr(e, "id", None) for e in v.elts]
-                    == ["local_threshold", "global_threshold"]):
-                return None
-            bail(s, "unexpected return value")
+            v = self.expr(s.value, env) if s.value is not None else None
+            if v is None or v[0] != "Tuple" or len(v) != 3 or any(x[0] in ("P", "NoneLit", "Tuple") for x in v[1:]):
+                bail(s, "get_threshold must return (local_threshold, global_threshold)")
+            env["#ret"] = v[1:]
+            return env
+        if isinstance(s, ast.Raise):
+            env["#raise"] = ("RAlways",)
+            return env
         bail(s, "unrecognised statement %s" % type(s).__name__)
 
     def translate(self, fn):
         want = ["threshold_method", "threshold_modifier", "image", "mask", "labels", "threshold_range_min",
                 "threshold_range_max", "threshold_correction_factor", "adaptive_window_size"]
-        if [a.arg for a in fn.args.args] != want or fn.args.kwarg is None or fn.args.vararg is not None:
+        if [a.arg for a in fn.args.args] != want or fn.args.kwarg is None or fn.args.kwarg.arg != "kwargs" \
+                or fn.args.vararg is not None or fn.args.kwonlyargs:
             bail(fn, "get_threshold signature changed")
-        if not isinstance(fn.body[-1], ast.Return) or any(
-                isinstance(n, ast.Return) for s in fn.body[:-1] for n in ast.walk(s)):
-            bail(fn, "get_threshold must return exactly once, at the end")
-        return self.seq(fn.body)
+        for n in ast.walk(fn):
+            if isinstance(n, (ast.For, ast.While, ast.Try, ast.With, ast.Lambda, ast.FunctionDef, ast.Global,
+                              ast.Nonlocal, ast.ListComp, ast.GeneratorExp)) and n is not fn:
+                bail(n, "get_threshold: %s is outside the symbolic evaluator" % type(n).__name__)
+        env = {n: ("P", n) for n in self.OPAQUE}
+        env.update(self.PARAMS)
+        env["#ret"] = None
+        env["#raise"] = ("RNever",)
+        env = self.block(fn.body, env)
+        if env["#ret"] is None:
+            bail(fn, "get_threshold does not return on every path")
+        local, glob = env["#ret"]
+        return local, glob, env["#raise"]
+
+
+def term_coq(t):
+    k = t[0]
+    if k in ("TRawG", "TRawAd", "TRawPo", "TCf", "TLo", "THi"):
+        return k
+    if k == "TConst":
+        return "(TConst %s)" % qlit(t[2])
+    if k == "TIf":
+        return "(TIf %s %s %s)" % (cond_coq(t[1]), term_coq(t[2]), term_coq(t[3]))
+    if k in ("TMul", "TMax", "TMin", "TClampLow", "TClampHigh", "TSentinel"):
+        return "(%s %s %s)" % (k, term_coq(t[1]), term_coq(t[2]))
+    raise Untranslatable("internal: term %r" % (t,))
+
+
+def cond_coq(c):
+    if c[0] in ("CNotNone", "CIsArray"):
+        return "(%s %s)" % (c[0], term_coq(c[1]))
+    if c[0] == "CMod":
+        return "(CMod %s)" % c[1]
+    return "CLabels"
+
+
+def rterm_coq(r):
+    if r[0] == "RIf":
+        return "(RIf %s %s %s)" % (cond_coq(r[1]), rterm_coq(r[2]), rterm_coq(r[3]))
+    return r[0]
+
+
+def term_consts(t, acc):
+    """distinct literals in order of first appearance, same traversal as Model.ThresholdLang.term_consts"""
+    k = t[0]
+    if k == "TConst":
+        if all(f != t[2] for _, f in acc):
+            acc.append((t[1], t[2]))
+    elif k == "TIf":
+        if t[1][0] in ("CNotNone", "CIsArray"):
+            term_consts(t[1][1], acc)
+        term_consts(t[2], acc)
+        term_consts(t[3], acc)
+    elif k in ("TMul", "TMax", "TMin", "TClampLow", "TClampHigh", "TSentinel"):
+        term_consts(t[1], acc)
+        term_consts(t[2], acc)
+    return acc
 
 
 # ------------------------------------------------------------------ access analysis
@@ -257,6 +363,8 @@ class Access:
             if isinstance(n, (ast.Lambda, ast.FunctionDef, ast.ClassDef, ast.Global, ast.Nonlocal,
                               ast.Try, ast.With)) and n is not fn:
                 bail(n, "%s: nested scope / try / with not supported by the access analysis" % fn.name)
+        self.img_alias = set()   # fresh locals bound to the raw parameter (`x = image`): read like `image` itself
+        self.mask_names = {"mask"}
         self.assigns = {}        # name -> list of value nodes assigned to it (for SliceDown)
         for n in ast.walk(fn):
             if isinstance(n, ast.Assign) and len(n.targets) == 1 and isinstance(n.targets[0], ast.Name):
@@ -316,17 +424,17 @@ class Access:
 
     def classify(self, n, guard):
         """n: a Load of the name `image` while it still denotes the raw parameter"""
-        if self.state == RAW_IF_NONE:
+        if self.state == RAW_IF_NONE and n.id == "image":
             return "WholeIfNoMask"
         p = self.parents.get(n)
         if isinstance(p, ast.Attribute) and p.value is n and p.attr in ("shape", "dtype"):
             return "Meta"
         if isinstance(p, ast.Subscript) and p.value is n and isinstance(p.ctx, ast.Load):
             sl = p.slice
-            if isinstance(sl, ast.Name) and sl.id == "mask":
+            if isinstance(sl, ast.Name) and sl.id in self.mask_names:
                 return "CropMask"
             if isinstance(sl, ast.BinOp) and isinstance(sl.op, ast.BitAnd) and any(
-                    isinstance(x, ast.Name) and x.id == "mask" for x in (sl.left, sl.right)):
+                    isinstance(x, ast.Name) and x.id in self.mask_names for x in (sl.left, sl.right)):
                 return "CropSubMask"
             r = self.slice_down(p, guard)
             if r:
@@ -343,8 +451,8 @@ class Access:
             pos = p.args
             if len(pos) > k and pos[k] is n:
                 nxt = k + 1 if p.func.id in ("get_global_threshold", "fn") else k + 2
-                if (len(pos) > nxt and isinstance(pos[nxt], ast.Name) and pos[nxt].id == "mask") or any(
-                        kw.arg == "mask" and isinstance(kw.value, ast.Name) and kw.value.id == "mask"
+                if (len(pos) > nxt and isinstance(pos[nxt], ast.Name) and pos[nxt].id in self.mask_names) or any(
+                        kw.arg == "mask" and isinstance(kw.value, ast.Name) and kw.value.id in self.mask_names
                         for kw in p.keywords):
                     return "PassDown"
         return self.other(n)
@@ -363,7 +471,7 @@ class Access:
                 self.expr_reads(e.orelse, guard)
             return
         if isinstance(e, ast.Name):
-            if e.id == "image" and isinstance(e.ctx, ast.Load) and self.state != DERIVED:
+            if isinstance(e.ctx, ast.Load) and ((e.id == "image" and self.state != DERIVED) or e.id in self.img_alias):
                 self.out.append(self.classify(e, guard))
             return
         for c in ast.iter_child_nodes(e):
@@ -379,6 +487,19 @@ class Access:
             self.stmt(s, guard)
 
     def stmt(self, s, guard):
+        if (isinstance(s, ast.Assign) and len(s.targets) == 1 and isinstance(s.targets[0], ast.Name)
+                and isinstance(s.value, ast.Name) and s.targets[0].id not in ("image", "mask")):
+            # plain aliasing of a parameter by a fresh local is not an access
+            v, t = s.value.id, s.targets[0].id
+            if (v == "image" and self.state == RAW) or v in self.img_alias:
+                if any(isinstance(n, ast.Name) and n.id == t and isinstance(n.ctx, ast.Store) and n is not s.targets[0]
+                       for n in ast.walk(self.fn)):
+                    bail(s, "%s: alias %s of image is rebound" % (self.fn.name, t))
+                self.img_alias.add(t)
+                return
+            if v in self.mask_names:
+                self.mask_names.add(t)
+                return
         if isinstance(s, (ast.Assign, ast.AugAssign, ast.AnnAssign)):
             self.expr_reads(s.value, guard)
             targets = s.targets if isinstance(s, ast.Assign) else [s.target]
@@ -537,14 +658,80 @@ def random_uses(modname, src):
     return out
 
 
+# ------------------------------------------------------------------ size thresholds (branch coverage of the search)
+
+def _fold_int(e, env):
+    """integer value of a constant expression (literals, + - * ** //, names bound once to such), else None"""
+    if isinstance(e, ast.Constant) and type(e.value) is int:
+        return e.value
+    if isinstance(e, ast.Name) and e.id in env:
+        return env[e.id]
+    if isinstance(e, ast.BinOp):
+        a, b = _fold_int(e.left, env), _fold_int(e.right, env)
+        if a is None or b is None:
+            return None
+        try:
+            if isinstance(e.op, ast.Pow) and 0 <= b <= 64:
+                return a ** b
+            if isinstance(e.op, ast.Mult):
+                return a * b
+            if isinstance(e.op, ast.Add):
+                return a + b
+            if isinstance(e.op, ast.Sub):
+                return a - b
+            if isinstance(e.op, ast.FloorDiv) and b:
+                return a // b
+        except Exception:
+            return None
+    return None
+
+
+def size_thresholds(src):
+    """{function name: sorted integer constants that some comparison of the function tests a non-constant
+    quantity against} - the sizes at which the function changes branch (e.g. get_mog_threshold: 262144 from
+    `max_count = 512 ** 2; if pixel_count > max_count`)"""
+    tree = ast.parse(src)
+    out = {}
+    for fn in tree.body:
+        if not isinstance(fn, ast.FunctionDef):
+            continue
+        env = {}
+        stores = {}
+        for n in ast.walk(fn):
+            if isinstance(n, ast.Name) and isinstance(n.ctx, ast.Store):
+                stores[n.id] = stores.get(n.id, 0) + 1
+        defaults = fn.args.defaults
+        for a, d in zip(fn.args.args[len(fn.args.args) - len(defaults):], defaults):
+            v = _fold_int(d, {})
+            if v is not None:
+                env[a.arg] = v
+        for _ in range(3):
+            for n in ast.walk(fn):
+                if (isinstance(n, ast.Assign) and len(n.targets) == 1 and isinstance(n.targets[0], ast.Name)
+                        and stores.get(n.targets[0].id) == 1):
+                    v = _fold_int(n.value, env)
+                    if v is not None:
+                        env[n.targets[0].id] = v
+        cs = set()
+        for n in ast.walk(fn):
+            if isinstance(n, ast.Compare):
+                sides = [n.left] + list(n.comparators)
+                vals = [_fold_int(x, env) for x in sides]
+                if any(v is None for v in vals):
+                    cs.update(v for v in vals if v is not None and v >= 2)
+        if cs:
+            out[fn.name] = sorted(cs)
+    return out
+
+
 def translate(src, smooth_src=None, otsu_src=None):
     tree = ast.parse(src)
     fns = {n.name: n for n in tree.body if isinstance(n, ast.FunctionDef)}
     if "get_threshold" not in fns:
         raise Untranslatable("get_threshold not found")
     gt = GT(src)
-    prog = gt.translate(fns["get_threshold"])
-    consts = gt.consts
+    local, glob, raises = gt.translate(fns["get_threshold"])
+    consts = term_consts(glob, term_consts(local, []))
     # functions that receive (image, mask)
     cand = [n for n in tree.body if isinstance(n, ast.FunctionDef)
             and {"image", "mask"} <= {a.arg for a in n.args.args + n.args.kwonlyargs}]
@@ -572,11 +759,17 @@ def translate(src, smooth_src=None, otsu_src=None):
         "Import ListNotations.",
         "Open Scope string_scope.",
         "",
-        "(* body of get_threshold *)",
-        "Definition get_threshold_prog : stmt :=",
-        "  " + prog + ".",
+        "(* get_threshold by symbolic evaluation: the returned local value, the returned global value, the",
+        "   condition under which the call raises explicitly *)",
+        "Definition get_threshold_local : term :=",
+        "  " + term_coq(local) + ".",
+        "Definition get_threshold_global : term :=",
+        "  " + term_coq(glob) + ".",
+        "Definition get_threshold_raises : rterm :=",
+        "  " + rterm_coq(raises) + ".",
+        "Definition get_threshold_prog : program := mkProg get_threshold_local get_threshold_global get_threshold_raises.",
         "",
-        "(* float literals of get_threshold, in source order: text and exact value of the double *)",
+        "(* distinct float literals of the two terms in order of first appearance: text and exact value of the double *)",
         "Definition get_threshold_consts : list (string * Q) :=",
         "  [" + "; ".join("(%s, %s)" % (coq_string(t), qlit(f)) for t, f in consts) + "].",
         "",
